@@ -248,6 +248,26 @@ Section C16.
     nondecr (map (fid_of g) keys) &&
     list_eqb Z.eqb (sort_z fs) (map Z.of_nat (seq 0 (length fs))) &&
     forallb (fun ka => match o_fid (snd ka) with Some _ => true | None => false end) (fst g).
+  (** 6 (all-atom, canonical numbering inside a copy): by ascending key the template atoms come
+      first, then the completing hydrogens in the order of their parent atoms; the atom name is
+      element + rank of the key inside the copy (what set_atom_names_atomistic gives when the nodes
+      of a copy are iterated in key order) *)
+  Definition c16_copy_order : bool :=
+    forallb (fun f =>
+      let ks := sort_z (map fst (filter (fun ka => match o_fid (snd ka) with Some f' => f =? f' | None => false end) (fst g))) in
+      let flags := map (fun k => if o_is_h (node_attrs_of g k) then 1 else 0) ks in
+      let hs := filter (fun k => o_is_h (node_attrs_of g k)) ks in
+      let templ_explicit_h := match ks with
+                              | k0 :: _ => match tpl_of k0 with
+                                           | Some t => negb (Nat.eqb (length (tpl_heavy true t)) (length (f_nodes t)))
+                                           | None => true end
+                              | [] => true end in
+      templ_explicit_h ||
+      (nondecr flags &&
+       nondecr (map (fun h => match nbrs g h with p :: _ => p | [] => -1 end) hs) &&
+       forallb (fun ik => match o_str (S "element") (node_attrs_of g (snd ik)), o_str (S "atomname") (node_attrs_of g (snd ik)) with
+                          | Some e, Some nm => str_eqb nm (e ++ str_of_nat (fst ik))
+                          | _, _ => false end) (combine (seq 0 (length ks)) ks))) fs.
   (** 7: valence completeness (statement of C09) in half-units of bond order *)
   Definition half_order (a : attrs) : option Z :=
     match aget (S "order") a with
@@ -287,7 +307,7 @@ Section C16.
 
   Definition holds_C16 : nat :=
     first_fail [chk (og_connected g) 1; chk c16_tree 2; chk c16_compl 3; chk c16_once 4; chk c16_iso 5;
-                chk c16_numbering 6; chk (negb aa || c16_valence) 7].
+                chk (c16_numbering && (negb aa || c16_copy_order)) 6; chk (negb aa || c16_valence) 7].
 End C16.
 
 (** * is an exception of the implementation explained by the user's tables (outside the domain)? *)
